@@ -238,3 +238,141 @@ Definition oracle_tri (ts : list tok) : list (list tok) :=
   | Some _ => [[TZ 2%Z]]
   | None => [[TZ (-1)%Z]]
   end.
+
+(** ** C15: swap / cut / collapse on triangle meshes *)
+Definition mesh_darts (st : state2) : list N :=
+  filter (fun d => usable st d && negb (is_free2 (mem st) d)) (all_darts st).
+Definition ids_of (st : state2) (p : policy) (ds : list N) : list N := dedup (map (cid st p) ds).
+Definition all_triangles (st : state2) : bool :=
+  forallb (fun d => match face_cycle st d with Some c => Nat.eqb (length c) 3 | None => false end) (mesh_darts st).
+Definition fully_embedded (st : state2) : bool :=
+  forallb (fun d => match pt_at st d with Some _ => true | None => false end) (mesh_darts st).
+
+Fixpoint minus_one (x : list tok) (l : list (list tok)) : list (list tok) :=
+  match l with
+  | [] => []
+  | y :: r => if toks_eqb x y then r else y :: minus_one x r
+  end.
+Definition count_toks (x : list tok) (l : list (list tok)) : nat := length (filter (toks_eqb x) l).
+Definition multiset_eq (a c : list (list tok)) : bool :=
+  Nat.eqb (length a) (length c) && forallb (fun x => Nat.eqb (count_toks x a) (count_toks x c)) a.
+Definition vertex_multiset (st : state2) : list (list tok) :=
+  map (fun v => vtok (vtx st v)) (ids_of st PVertex (mesh_darts st)).
+
+Definition total_area2 (st : state2) : option dy :=
+  let fs := ids_of st PFace (mesh_darts st) in
+  match all_some (map (fun f => match face_cycle st f with
+                                | Some c => match all_some (map (pt_at st) c) with
+                                            | Some ps => Some (dy_area2 ps) | None => None end
+                                | None => None end) fs) with
+  | Some l => Some (fold_left dy_add l dy_zero)
+  | None => None
+  end.
+
+Definition counts (st : state2) : Z * Z * Z :=
+  let m := mesh_darts st in
+  (Z.of_nat (length (ids_of st PVertex m)), Z.of_nat (length (ids_of st PEdge m)), Z.of_nat (length (ids_of st PFace m))).
+Definition counts_delta (st st' : state2) (dv de df : Z) : bool :=
+  let '(v, e, f) := counts st in let '(v', e', f') := counts st' in
+  (Z.eqb (v' - v) dv && Z.eqb (e' - e) de && Z.eqb (f' - f) df)%Z.
+
+Definition opt_dy_eqb (a c : option dy) : bool :=
+  match a, c with Some x, Some y => dy_eqb x y | _, _ => false end.
+
+Definition exact_mid (p q : pt) : pt := (dy_half (dy_add (fst p) (fst q)), dy_half (dy_add (snd p) (snd q))).
+
+(* anchors of vertices, keyed by coordinates: every post vertex other than [skip] keeps the anchor
+   of the pre vertex with the same coordinates *)
+Definition vanchor (st : state2) (v : N) : list tok := slot st (DAttr KVA) v.
+Definition anchors_kept (st st' : state2) (skip : list (list tok)) : bool :=
+  negb (has_kind (aks st) KVA) ||
+  forallb (fun v' =>
+     let c' := vtok (vtx st' v') in
+     existsb (toks_eqb c') skip ||
+     existsb (fun v => toks_eqb (vtok (vtx st v)) c' && toks_eqb (vanchor st v) (vanchor st' v'))
+             (ids_of st PVertex (mesh_darts st)))
+    (ids_of st' PVertex (mesh_darts st')).
+
+Definition sign_consistent_around (st : state2) (v : N) : bool :=
+  let ds := cell_of st PVertex v in
+  let signs := map (fun d => match face_cycle st d with
+                             | Some c => match all_some (map (pt_at st) c) with
+                                         | Some ps => dy_sgn (dy_area2 ps) | None => 0%Z end
+                             | None => 0%Z end) ds in
+  (* degenerate (zero-area) triangles have no orientation: only the non-zero signs must agree *)
+  match filter (fun s => negb (Z.eqb s 0)) signs with s :: r => forallb (Z.eqb s) r | [] => true end.
+
+(* classes: 1 ill-formed, 2 a face is not a triangle, 3 V/E/F counts, 4 C15:vertex-set-wrong,
+   5 signed area not conserved, 6 orientation around the collapsed vertex, 7 swap did not produce
+   the other diagonal, 8 anchors, 9 removed darts not flagged *)
+Definition remesh_common (st st' : state2) : list (bool * N) :=
+  [ (wf2b (nd st') (mem st'), 1); (all_triangles st' && fully_embedded st', 2) ].
+
+Definition oracle_remesh (ts : list tok) : list (list tok) :=
+  match split_step ts with
+  | Some (pre, TZ 9%Z :: TZ _ :: kt, post) =>
+    match obs_state pre, obs_state post, post, parse_kcall kt with
+    | Some st, Some st', TZ cls :: _, Some (k, []) =>
+      if negb (wf2b (nd st) (mem st) && all_triangles st && fully_embedded st) then [[TZ 2%Z]] else
+      if negb (cls =? 0)%Z then [[TZ 2%Z]] else
+      match k with
+      | KSwap e =>
+        let l := e in let r := b st 2 l in
+        if negb (usable st l) || (r =? 0) then [[TZ 2%Z]] else
+        let corner d := vtok (vtx st d) in
+        let A := corner l in let B := corner r in let C := corner (b st 0 l) in let D := corner (b st 0 r) in
+        let face_pts s d := match face_cycle s d with Some c => map (fun x => vtok (vtx s x)) c | None => [] end in
+        let f1 := face_pts st' l in let f2 := face_pts st' r in
+        verdict (first_bad (remesh_common st st' ++ [
+          (counts_delta st st' 0 0 0, 3);
+          (multiset_eq (vertex_multiset st) (vertex_multiset st'), 4);
+          (opt_dy_eqb (total_area2 st) (total_area2 st'), 5);
+          ((multiset_eq f1 [A; C; D] && multiset_eq f2 [B; C; D]) ||
+           (multiset_eq f1 [B; C; D] && multiset_eq f2 [A; C; D]), 7);
+          (b st' 2 l =? r, 7);
+          (anchors_kept st st' [], 8) ]))
+      | KCutOuter e n1 n2 n3 | KCutInner e n1 n2 n3 _ _ _ =>
+        let inner := match k with KCutInner _ _ _ _ _ _ _ => true | _ => false end in
+        let spare := match k with KCutInner _ a c d f g h => [a; c; d; f; g; h] | _ => [n1; n2; n3] end in
+        if negb (usable st e) || negb (Bool.eqb inner (negb (b st 2 e =? 0))) ||
+           negb (forallb (fun x => usable st x && is_free2 (mem st) x) spare && nodupb spare) then [[TZ 2%Z]] else
+        match pt_at st e, pt_at st (b st 1 e), vtx st e, vtx st (b st 1 e) with
+        | Some p, Some q, Some v1, Some v2 =>
+          let mid := avg2 v1 v2 in
+          let exact := match pt_of_v mid with Some m => pt_eqb m (exact_mid p q) | None => false end in
+          verdict (first_bad (remesh_common st st' ++ [
+            (if inner then counts_delta st st' 1 3 2 else counts_delta st st' 1 2 1, 3);
+            (multiset_eq (vtok (Some mid) :: vertex_multiset st) (vertex_multiset st'), 4);
+            (negb exact || opt_dy_eqb (total_area2 st) (total_area2 st'), 5);
+            (anchors_kept st st' [vtok (Some mid)], 8) ]))
+        | _, _, _, _ => [[TZ 2%Z]]
+        end
+      | KCollapse e =>
+        let l := e in let r := b st 2 l in
+        if negb (usable st l) then [[TZ 2%Z]] else
+        match vtx st l, vtx st (b st 1 l) with
+        | Some v1, Some v2 =>
+          let olds := vertex_multiset st in
+          let news := vertex_multiset st' in
+          let cand := [vtok (Some v1); vtok (Some v2); vtok (Some (avg2 v1 v2))] in
+          let removed := filter (fun d => unused (mem st') d && negb (unused (mem st) d)) (all_darts st) in
+          verdict (first_bad (remesh_common st st' ++ [
+            (if r =? 0 then counts_delta st st' (-1) (-2) (-1) else counts_delta st st' (-1) (-3) (-2), 3);
+            (* known finding: in some configurations the vertex ends at avg(avg(v1,v2), v_i) *)
+            (negb (existsb (fun c => multiset_eq (c :: minus_one (vtok (Some v1)) (minus_one (vtok (Some v2)) olds)) news)
+                           [vtok (Some (avg2 (avg2 v1 v2) v1)); vtok (Some (avg2 (avg2 v1 v2) v2));
+                            vtok (Some (avg2 v1 (avg2 v1 v2))); vtok (Some (avg2 v2 (avg2 v1 v2)))]) ||
+             existsb (fun c => multiset_eq (c :: minus_one (vtok (Some v1)) (minus_one (vtok (Some v2)) olds)) news) cand, 10);
+            (existsb (fun c => multiset_eq (c :: minus_one (vtok (Some v1)) (minus_one (vtok (Some v2)) olds)) news) cand, 4);
+            (Nat.eqb (length removed) (if r =? 0 then 3 else 6), 9);
+            (forallb (fun v' => negb (existsb (toks_eqb (vtok (vtx st' v'))) cand) || sign_consistent_around st' v')
+                     (ids_of st' PVertex (mesh_darts st')), 6) ]))
+        | _, _ => [[TZ 2%Z]]
+        end
+      | _ => [[TZ 2%Z]]
+      end
+    | _, _, _, _ => [[TZ (-1)%Z]]
+    end
+  | Some _ => [[TZ 2%Z]]
+  | None => [[TZ (-1)%Z]]
+  end.
